@@ -200,9 +200,9 @@ pub fn run(em: &mut Emitter, rng: &mut Rng, thorough: bool) {
         if rng.chance(1, 25) { let k = rng.below(t.len() as u64 + 1) as usize; t.insert(k, *rng.pick(&['.', 'x', '-', ' ', '+'])); }
         fromstr_case(em, &t);
     }
-    // ---- sub-identifier encodings of 1..6 octets: conversion and display ----
+    // ---- sub-identifier encodings of 1..12, 15, 19, 20 octets (beyond 32, 64 and 128 bits): conversion and display ----
     let tops: [u8; 8] = [0x01, 0x07, 0x08, 0x0f, 0x10, 0x7f, 0x00, 0x40];
-    for len in 1..=6usize { for &top in &tops { for pat in 0..3 {
+    for len in (1..=12usize).chain([15, 19, 20]) { for &top in &tops { for pat in 0..3 {
         let mut sub = vec![top | 0x80];
         for _ in 1..len { sub.push(0x80 | match pat { 0 => 0x7f, 1 => 0, _ => rng.byte() & 0x7f }); }
         let l = sub.len(); sub[l - 1] &= 0x7f;
